@@ -29,9 +29,9 @@ Proof. exact no_false_alarm. Qed.
    (the comment in advance_frame): a frame above L may still hold a mispredicted state. *)
 Theorem C09_confirmed_saved_states_are_replays :
   forall (predict : Z -> Z), (forall x, predict (predict x) = predict x) -> predict 0 = 0 ->
-  forall (ops : list sop) (n w d : Z) (kinds : list pkind) (eps : list (list Z)) (p : p2p) (outs : list (pout * apires)),
+  forall (ops : list sop) (n w d : Z) (kinds : list pkind) (eps : list (list Z)) (nspec : nat) (p : p2p) (outs : list (pout * apires)),
   1 <= w -> 0 <= d -> w + d + 3 <= INPUT_QUEUE_LENGTH -> 0 < n -> Z.of_nat (length kinds) = n -> players_only kinds ->
-  srun_in predict (session_start n w false d kinds eps 0) ops = Ok (p, outs) ->
+  srun_in predict (session_start n w false d kinds eps nspec) ops = Ok (p, outs) ->
   exists g gs, exec_outs w (game0 w) outs = Some g /\ QS w d p gs /\
     forall F, Z.max 0 (s_current (ps_sync p) - w) <= F <= s_current (ps_sync p) - 1 -> F <= s_last_confirmed (ps_sync p) ->
       exists H, nth (Z.to_nat (F mod (w + 1))) (g_cells g) (NULL, []) = (F, H) /\ cell_frame (ps_sync p) F = F /\
